@@ -173,9 +173,11 @@ def sigLabels (m : Matching) (ls : Labels) : Labels :=
 
 /-- `resultMetric` -/
 def resultMetric (op : String) (bool : Bool) (m : Matching) (many one : Labels) : Labels :=
-  let ls := if dropsName op || bool then many.dropName else many
+  let ls := if dropsName op then many.dropName else many
   let ls := if m.card == .oneToOne then (if m.on then ls.keep m.labels else ls.del m.labels) else ls
-  m.incl.foldl (fun acc ln => acc.set ln (one.get ln)) ls
+  let ls := m.incl.foldl (fun acc ln => acc.set ln (one.get ln)) ls
+  -- `bool` drops the name from the finished metric (`enh.DropMetricName` in `VectorBinop`)
+  if bool then ls.dropName else ls
 
 /-- reference `VectorBinop` for one step -/
 def vectorBinop (op : String) (bool : Bool) (m : Matching) (lhs rhs : Vec V) : Except Err (Vec V) :=
